@@ -23,9 +23,17 @@ func RendezvousHash(key string, servers []string, topK int) []string {
 		hash := xxhash.Sum64String(key + server)
 		scores[i] = ServerScore{server, hash}
 	}
-	// Sort by score
+	// Sort by score. Equal scores are decided by a second score and then by
+	// server name, never by the position in the servers list: every node has to
+	// compute the same order whatever the order of its list.
 	slices.SortFunc(scores, func(a, b ServerScore) int {
-		return cmp.Compare(a.Score, b.Score)
+		if c := cmp.Compare(a.Score, b.Score); c != 0 {
+			return c
+		}
+		if c := cmp.Compare(xxhash.Sum64String(a.Server+key), xxhash.Sum64String(b.Server+key)); c != 0 {
+			return c
+		}
+		return cmp.Compare(a.Server, b.Server)
 	})
 	// Convert back to string slice
 	if topK > len(servers) {
